@@ -971,9 +971,32 @@ func (w *World) ruleWalkVisitsAll(r *Report, rule string, vw *valueWalk) {
 					}
 				}
 			}
-			for _, s2 := range lp.header.Succs {
-				if lp.body[s2] {
-					dfs(s2, 0, map[*ssa.BasicBlock]bool{})
+			// an iteration starts with the header: in a test-at-the-bottom loop
+			// (`for { walk(v.Index(i)); i++; if i >= v.Len() { break } }`) the
+			// header IS the body and holds the walk call
+			headKs := []int{0}
+			for _, c := range vw.walkCallsIn(lp.header) {
+				var next []int
+				for _, iv := range vw.invocations(w.walkCallee(c)) {
+					for _, a := range headKs {
+						if iv < 0 || a < 0 {
+							next = append(next, -1)
+						} else {
+							next = append(next, a+iv)
+						}
+					}
+				}
+				headKs = uniqInts(next)
+			}
+			for _, k0 := range headKs {
+				if k0 < 0 {
+					counts[-1] = true
+					continue
+				}
+				for _, s2 := range lp.header.Succs {
+					if lp.body[s2] {
+						dfs(s2, k0, map[*ssa.BasicBlock]bool{})
+					}
 				}
 			}
 			var got []int
